@@ -481,6 +481,8 @@ class Program:
             sym = self.resolve_expr_symbol(mod, ann)
             if isinstance(sym, ClassInfo):
                 return t_cls(sym.fq)
+            if isinstance(sym, tuple) and sym[0] == 'ext' and sym[1] in EXT_OBJECT_FACTORIES:
+                return ('extobj', sym[1])        # annotated with a library class (deque, Pattern ...)
             return ANY
         return ANY
 
@@ -968,7 +970,7 @@ class TypeEnv:
 
 
 # standard-library calls whose result is an opaque library object (its methods are library code, never package methods)
-EXT_OBJECT_FACTORIES = {'re.compile', 'logging.getLogger', 'hashlib.md5', 'hashlib.sha1', 'hashlib.sha256',
+EXT_OBJECT_FACTORIES = {'re.compile', 'collections.deque', 'logging.getLogger', 'hashlib.md5', 'hashlib.sha1', 'hashlib.sha256',
                         'threading.Lock', 'threading.RLock'}
 
 BUILTIN_METHOD_NAMES = {
